@@ -1,5 +1,6 @@
 import RtcVerif.Model.C04Goals
 import RtcVerif.Model.C04Store
+import RtcVerif.Model.C04Json
 import RtcVerif.Proofs.C04Validate
 import RtcVerif.Proofs.C04Store
 import RtcVerif.Proofs.C04Rows
